@@ -21,17 +21,17 @@ import (
 // the superblock's cached ones and point at a "TREE" node and a "HEAP").
 
 type RegCase struct {
-	SBVer    uint8    `json:"sbver"` // 2: datatype registry; 0: root symbol table
-	Dtype    int      `json:"dtype"`
-	Dims     []uint64 `json:"dims"`
-	Chunk    []uint64 `json:"chunk,omitempty"`
-	StrSize  uint32   `json:"strsize,omitempty"`
-	ArrDims  []uint64 `json:"arrdims,omitempty"`
-	Names    []Blob   `json:"names,omitempty"`
-	Vals     *Blob    `json:"vals,omitempty"`
-	Tag      *Blob    `json:"tag,omitempty"`
-	OpSize   uint32   `json:"opsize,omitempty"`
-	NGroups  int      `json:"ngroups,omitempty"`
+	SBVer   uint8    `json:"sbver"` // 2: datatype registry; 0: root symbol table
+	Dtype   int      `json:"dtype"`
+	Dims    []uint64 `json:"dims"`
+	Chunk   []uint64 `json:"chunk,omitempty"`
+	StrSize uint32   `json:"strsize,omitempty"`
+	ArrDims []uint64 `json:"arrdims,omitempty"`
+	Names   []Blob   `json:"names,omitempty"`
+	Vals    *Blob    `json:"vals,omitempty"`
+	Tag     *Blob    `json:"tag,omitempty"`
+	OpSize  uint32   `json:"opsize,omitempty"`
+	NGroups int      `json:"ngroups,omitempty"`
 }
 
 var regTypes = []hdf5.Datatype{hdf5.Int8, hdf5.Int16, hdf5.Int32, hdf5.Int64, hdf5.Uint8, hdf5.Uint16, hdf5.Uint32, hdf5.Uint64, hdf5.Float32, hdf5.Float64,
@@ -119,6 +119,8 @@ func (c RegCase) equivalent() (T, []hdf5.DatasetOption, bool) {
 	return T{}, nil, false
 }
 
+func isIn(m map[hdf5.Datatype]hdf5.Datatype, d hdf5.Datatype) bool { _, ok := m[d]; return ok }
+
 func genReg(t *rapid.T) RegCase {
 	if rapid.IntRange(0, 7).Draw(t, "v0") == 0 {
 		return RegCase{SBVer: 0, NGroups: rapid.IntRange(0, 3).Draw(t, "ngroups")}
@@ -137,12 +139,12 @@ func genReg(t *rapid.T) RegCase {
 	switch {
 	case d == hdf5.String:
 		c.StrSize = rapid.SampledFrom([]uint32{1, 7, 8, 16, 255, 256, 1000}).Draw(t, "strsize")
-	case arrayBase[d] != 0 || d == hdf5.ArrayInt8:
+	case isIn(arrayBase, d):
 		n := rapid.IntRange(1, 4).Draw(t, "arank")
 		for i := 0; i < n; i++ {
 			c.ArrDims = append(c.ArrDims, rapid.Uint64Range(1, 5).Draw(t, "adim"))
 		}
-	case enumBase[d] != 0 || d == hdf5.EnumInt8:
+	case isIn(enumBase, d):
 		bt, _ := numeric(enumBase[d])
 		n := rapid.IntRange(1, 4).Draw(t, "nenum")
 		for i := 0; i < n; i++ {
